@@ -65,6 +65,11 @@ def c01(tier):
                  recv_spec('length-forms', tags, long_frame=True, xval_stride=5),
                  recv_spec('length-forms-text-1000', tags + ['C05'], long_frame=True, long_opcode=1, cuts=[1000] * 70, xval_stride=5),
                  recv_spec('length-forms-4096', tags, long_frame=True, cuts=[4096] * 20, xval_stride=5)]
+    specs.append(Spec('frame-step', 'checks.frame', 'run_frame_step', dict(max_chunk=3 if tier == 'quick' else 5, k_max=1 if tier == 'quick' else 2,
+                                                                            opcode_list=[2, 1] if tier == 'quick' else [2, 1, 0], xval_stride=11),
+                      what='INDUCTIVE STEP on the payload-read state: announced length L symbolic (7/16/63-bit, every value at once), k<=1/2 bytes gathered, '
+                           'one feed() of a symbolic chunk of solver-chosen size: remaining/buffer/emission/surplus obligations; with the bounded sweeps this '
+                           'covers every length in every form for every chunking (assumption: bytearray behaviour independent of its size)'))
     return run_property('C01', tier, specs, 'model_checking', 'delivery once/in order/byte-exact',
                         ENV_ASSUMPTIONS, RECV_FUNCS)
 
